@@ -165,37 +165,67 @@ fn check_parsed(html: &str, ls: &[Link], has_table: bool, w: usize, cfg: &Cfg, c
             "as_unit_test": format!("#[test] fn c08_replay() {{ let s = {}.string_from_read({html:?}.as_bytes(), {w}).unwrap(); /* {class} */ print!(\"{{s}}\"); }}", cfg.as_rust())}));
     };
     let lines: Vec<&str> = s.lines().collect();
-    let mut idx = lines.len();
-    while idx > 0 && {
-        let l = lines[idx - 1];
-        l.starts_with('[') && l.contains("]: ")
-    } {
-        idx -= 1;
-    }
-    let foot: Vec<&str> = lines[idx..].to_vec();
-    let body = lines[..idx].join("\n");
-    let evs = stream(&body);
+    let deep: Vec<&Link> = ls.iter().filter(|l| !l.toks.is_empty()).collect();
+    let shallow: Vec<&Link> = ls.iter().filter(|l| l.shallow_nonempty).collect();
+    // an entry wider than the width is hard-wrapped into pieces of at most w columns
+    // ("after unwrapping at width"): the expected block is the entries cut greedily
+    let footlist = |v: &Vec<&Link>| -> Vec<String> {
+        let mut out = vec![];
+        for (i, l) in v.iter().enumerate() {
+            let entry = format!("[{}]: {}", i + 1, l.href);
+            let mut cur = String::new();
+            let mut pos = 0;
+            for c in entry.chars() {
+                if pos + cw(c) > w && !cur.is_empty() {
+                    out.push(std::mem::take(&mut cur));
+                    pos = 0;
+                }
+                cur.push(c);
+                pos += cw(c);
+            }
+            out.push(cur.trim_end().to_string());
+        }
+        out
+    };
+    let looks_like_entry = |l: &str| l.starts_with('[') && l.contains("]: ");
+    let tail_is = |exp: &Vec<String>| lines.len() >= exp.len() && lines[lines.len() - exp.len()..].iter().zip(exp).all(|(a, b)| a.trim_end() == b.trim_end());
     if !fnotes {
-        if !foot.is_empty() || evs.iter().any(|e| matches!(e, Ev::Ref(_))) {
+        let evs = stream(s);
+        if lines.iter().any(|l| looks_like_entry(l)) || evs.iter().any(|e| matches!(e, Ev::Ref(_))) {
             fail(cx, "footnotes disabled but references or a footnote list appear", json!(null));
         }
         return;
     }
-    let deep: Vec<&Link> = ls.iter().filter(|l| !l.toks.is_empty()).collect();
-    let shallow: Vec<&Link> = ls.iter().filter(|l| l.shallow_nonempty).collect();
     if deep.len() >= 2 {
         cx.nontrivial();
     }
-    let footlist = |v: &Vec<&Link>| -> Vec<String> { v.iter().enumerate().map(|(i, l)| format!("[{}]: {}", i + 1, l.href)).collect() };
-    let got_foot: Vec<String> = foot.iter().map(|s| s.to_string()).collect();
-    let (rendered, known) = if got_foot == footlist(&deep) {
-        (deep, false)
-    } else if got_foot == footlist(&shallow) {
-        (shallow, true)
+    // (the longer candidate first: an empty expectation matches every tail)
+    let (rendered, known, nfoot) = if shallow.len() > deep.len() && tail_is(&footlist(&shallow)) {
+        let n = footlist(&shallow).len();
+        (shallow, true, n)
+    } else if tail_is(&footlist(&deep)) {
+        let n = footlist(&deep).len();
+        (deep, false, n)
     } else {
-        fail(cx, "footnote list is not [k]: target of the k-th link with content", json!({"expected": footlist(&deep), "observed": got_foot}));
+        let mut idx = lines.len();
+        while idx > 0 && looks_like_entry(lines[idx - 1]) {
+            idx -= 1;
+        }
+        fail(cx, "footnote list is not [k]: target of the k-th link with content", json!({"expected": footlist(&deep), "observed_tail": lines[idx.min(lines.len().saturating_sub(footlist(&deep).len() + 1))..].to_vec()}));
         return;
     };
+    let idx = lines.len() - nfoot;
+    // exactly one list, separated from the text by a blank line
+    if nfoot > 0 && idx > 0 && !lines[idx - 1].trim().is_empty() {
+        fail(cx, "the footnote list is not separated from the text by a blank line", json!({"line_before": lines[idx - 1]}));
+        return;
+    }
+    if lines[..idx].iter().any(|l| looks_like_entry(l)) {
+        fail(cx, "a second footnote list appears inside the text", json!(null));
+        return;
+    }
+    let body = lines[..idx].join("\n");
+    let evs = stream(&body);
     // references
     let refs: Vec<usize> = evs.iter().filter_map(|e| if let Ev::Ref(k) = e { Some(*k) } else { None }).collect();
     let expn: Vec<usize> = (1..=rendered.len()).collect();
@@ -265,14 +295,42 @@ fn offset_doc(u: u64) -> String {
         _ => format!("<blockquote>{body}</blockquote>"),
     }
 }
+/// Two links whose first target is `l1` characters long (footnote lines that wrap, including
+/// entries that are an exact multiple of the width).
+fn long_target_doc(l1: usize, second: usize, ctx: usize) -> String {
+    let h1: String = std::iter::once('/').chain("abcdefghijklmnopqrstuvwxyz0123456789".chars().cycle()).take(l1).collect();
+    let h2 = ["/2", "/yz/yz/yz/yz/"][second];
+    let body = format!("qa <a href=\"{h1}\">qb</a> qc <a href=\"{h2}\">qd</a> qe");
+    match ctx {
+        0 => format!("<p>{body}</p>"),
+        _ => format!("<ul><li>{body}</li></ul>"),
+    }
+}
+const N_LONG_UNITS: u64 = 40;
 fn cfgs() -> Vec<Cfg> {
     vec![Cfg::plain(), Cfg::plain().with(Opt::Footnotes(false)), Cfg::trivial().with(Opt::Footnotes(true)), Cfg::trivial(), Cfg::rich().with(Opt::Footnotes(true))]
 }
 impl Scope for S {
     fn units(&self) -> u64 {
-        *self.offsets.last().unwrap() + self.n_offset_units
+        *self.offsets.last().unwrap() + self.n_offset_units + N_LONG_UNITS
     }
     fn run_unit(&self, unit: u64, cx: &mut Cx) {
+        if unit >= *self.offsets.last().unwrap() + self.n_offset_units {
+            let l1 = (unit - *self.offsets.last().unwrap() - self.n_offset_units) as usize + 1;
+            for second in 0..2 {
+                for ctx in 0..2 {
+                    let h = long_target_doc(l1, second, ctx);
+                    let d = dom::parse(h.as_bytes());
+                    let ls = links(&d);
+                    for w in 4..=48usize {
+                        for cfg in cfgs() {
+                            check_parsed(&h, &ls, false, w, &cfg, cx);
+                        }
+                    }
+                }
+            }
+            return;
+        }
         if unit >= *self.offsets.last().unwrap() {
             let h = offset_doc(unit - *self.offsets.last().unwrap());
             let d = dom::parse(h.as_bytes());
@@ -311,9 +369,9 @@ impl Scope for S {
     }
     fn info(&self) -> Info {
         Info {
-            rule: "documents of 0..maxk links, each placed in one of 8 containers (paragraph, list item, quote, heading, table cell, nested table cell, dt, pre) with one of 8 contents (text, em, image, empty, whitespace, deeply empty, two words, three words with em; 5 of them for documents of 3+ links), repeated targets; plus multi-word links placed after 0..15 columns of text in a paragraph / list item / quote at every width 8..=44; x widths x {plain, plain without footnotes, trivial with/without footnotes, rich with footnotes}; non-trivial = >= 2 links with content".into(),
+            rule: "documents of 0..maxk links, each placed in one of 8 containers (paragraph, list item, quote, heading, table cell, nested table cell, dt, pre) with one of 8 contents (text, em, image, empty, whitespace, deeply empty, two words, three words with em; 5 of them for documents of 3+ links), repeated targets; plus multi-word links placed after 0..15 columns of text in a paragraph / list item / quote at every width 8..=44; plus two links whose first target is 1..40 characters long at every width 4..=48 (footnote entries that wrap, incl. exact multiples of the width); x widths x {plain, plain without footnotes, trivial with/without footnotes, rich with footnotes}; non-trivial = >= 2 links with content".into(),
             bounds: json!({"max_links": self.maxk, "places": NPLACES, "contents": NCONTENTS, "widths_3_or_more_links": self.widths, "widths_up_to_2_links": "8..=40"}),
-            assumptions: vec!["targets are short (no footnote line wraps at the explored widths)".into()],
+            assumptions: vec!["a footnote entry wider than the width is expected as its greedy cut into pieces of at most w columns (the statement's 'after unwrapping at width')".into()],
         }
     }
 }
